@@ -95,6 +95,18 @@ class StartStageHandler(
 
         def on_stage(stage: StageExecution) -> None:
             try:
+                # A cancel has been accepted for this workflow: nothing new starts.
+                # The CancelStage fan-out settles this stage; starting it here would
+                # complete a task-less or disabled stage SUCCEEDED / SKIPPED instead
+                # of CANCELED when this message overtakes the stage's CancelStage.
+                if stage.status == WorkflowStatus.NOT_STARTED and stage.execution.is_canceled:
+                    logger.debug(
+                        "Ignoring StartStage for %s (%s): workflow is canceled",
+                        stage.name,
+                        stage.id,
+                    )
+                    return
+
                 # Get upstream stages from repository (returns empty list if none)
                 upstream_stages = self.repository.get_upstream_stages(stage.execution.id, stage.ref_id)
                 if upstream_stages is None:
